@@ -75,6 +75,15 @@ func TestRegressReverseQuery(t *testing.T) {
 	evid.For("C13").Case(true, evid.Hash("regress-reverse"), "regress")
 }
 
+func TestRegressInitConflict(t *testing.T) {
+	// Init loses a transaction conflict against a Create of one of its seeds: nothing of the
+	// seeding is stored, so no index entry of the seed value may appear either
+	c := Case{Cfg: Cfg{Indexes: []string{"ia"}}, Ops: []Op{{K: "init", ID: "1", A: "a", Then: "race", A2: "b"}, {K: "query", Q: &Query{Index: "ia", Limit: -1}}}}
+	r := runSequential(c)
+	evid.ReportKnown(t, "C13", "C13-init-onchange-before-commit", r.c13 != "", r.c13, c)
+	evid.For("C13").Case(true, evid.Hash("regress-initconflict"), "regress")
+}
+
 func TestRegressFlushEarly(t *testing.T) {
 	// a slow Key function holds the window between "task dequeued" and "index committed" open
 	msg := ""
